@@ -724,8 +724,26 @@ func ByzantineFrame(t *rt.Tape) Segment {
 		p[i] = byte(t.S(256))
 	}
 	hdr := []byte{0xD3, byte(n>>8) & 3, byte(n)}
-	kind := t.S(5)
+	kind := t.S(6)
 	switch kind {
+	case 5:
+		// an aliased length: the field announces L, the data and the CRC are those
+		// of a frame of L mod 256 (or L mod 512) bytes - what a length read through
+		// too narrow a mask would take for a complete frame
+		mod := []int{256, 256, 512}[t.S(3)]
+		n = 1 + t.S(min(mod-1, 60))
+		if t.S(4) == 0 {
+			n = 1 + t.S(mod-1)
+		}
+		p = make([]byte, n)
+		for i := range p {
+			p[i] = byte(t.S(256))
+		}
+		l := n + mod*(1+t.S(1023/mod))
+		if l > 1023 {
+			l = n + mod
+		}
+		hdr[1], hdr[2] = byte(l>>8)&3, byte(l)
 	case 3:
 		// a sender that ignores the 10-bit limit: 16-bit length field equal to the
 		// real data length (1024 and up), CRC consistent
